@@ -22,6 +22,17 @@ from harness.common import Ctx, Finding, SearchResult, Stream, hx
 PROP = 'C01'
 
 
+def deadline(ctx: Ctx, quick_s: float, thorough_s: float) -> float:
+	"""total wall deadline of one stream / search phase: what is not reached is skipped and counted, never waited for"""
+	import time
+	return time.time() + (thorough_s if ctx.thorough else quick_s)
+
+
+def past(dl: float) -> bool:
+	import time
+	return time.time() > dl
+
+
 # ---------------------------------------------------------------------------------------------
 # search
 
@@ -85,7 +96,7 @@ def signature(p: gen_prog.Prog) -> str:
 	return ','.join(sorted(kinds))
 
 
-def shrink(pl: cxx.Pipeline, p: gen_prog.Prog, r: dict[str, Any], rounds: int = 12) -> tuple[gen_prog.Prog, dict[str, Any]]:
+def shrink(pl: cxx.Pipeline, p: gen_prog.Prog, r: dict[str, Any], rounds: int = 12, dl: float | None = None) -> tuple[gen_prog.Prog, dict[str, Any]]:
 	"""Generic greedy reduction of an unexplained failure (the same failure must persist: status, and for a rejection the same
 	exception — deleting a declaration turns any rejected program into one rejected for an unresolved name, which is another failure)."""
 
@@ -171,6 +182,8 @@ def shrink(pl: cxx.Pipeline, p: gen_prog.Prog, r: dict[str, Any], rounds: int = 
 
 	cur, cur_r = p, r
 	for _ in range(rounds):
+		if dl is not None and past(dl):
+			break   # the program found so far is still a concrete failing input
 		cands = candidates(cur)[:32]
 		if not cands:
 			break
@@ -198,6 +211,7 @@ def search_programs(ctx: Ctx, pl: cxx.Pipeline) -> SearchResult:
 	res = SearchResult('run_cpp(transpile(P), a) == run_python(P, a): real Py2Cpp + g++ -std=c++20 vs CPython on generated typed programs')
 	hist: Counter[str] = Counter()
 	seen: set[str] = set()
+	dl = deadline(ctx, 240, 1500)   # total wall budget of the search: later phases are skipped (and counted), reductions stop
 
 	# 1. corpus: minimised witnesses of the known defect classes, replayed first (concrete replays)
 	corpus = load_corpus()
@@ -237,7 +251,8 @@ def search_programs(ctx: Ctx, pl: cxx.Pipeline) -> SearchResult:
 	hist['calls-compared'] = compared
 
 	# 2b. probe programs: one construct tranp is known to mishandle per program, randomised operands, own finding key
-	probes = [gen_prog.probe_program(random.Random(rng.random())) for _ in range(ctx.scale(5, 45))]
+	probes = [gen_prog.probe_program(random.Random(rng.random())) for _ in range(0 if past(dl) else ctx.scale(5, 45))]
+	hist['skipped-at-deadline:probes'] += int(past(dl))
 	for (key, d), r in zip(probes, pl.check_many([d for _, d in probes], per_unit=1) if probes else []):
 		res.cases += 1
 		seen.add(d['source'])
@@ -247,7 +262,8 @@ def search_programs(ctx: Ctx, pl: cxx.Pipeline) -> SearchResult:
 				replay={'key': key, 'program': d, 'result': _short(r), 'emitted': r.get('emitted')}))
 
 	# 2b'. idiom programs: small families with randomised operands that must agree (callable captures, list-fill declarations)
-	idioms = [gen_prog.idiom_program(random.Random(rng.random()), key) for key in sorted(gen_prog.IDIOM_WHAT) for _ in range(ctx.scale(3, 20))]
+	idioms = [gen_prog.idiom_program(random.Random(rng.random()), key) for key in sorted(gen_prog.IDIOM_WHAT) for _ in range(0 if past(dl) else ctx.scale(3, 20))]
+	hist['skipped-at-deadline:idioms'] += int(past(dl))
 	for (key, d), r in zip(idioms, pl.check_many([d for _, d in idioms], per_unit=3)):
 		res.cases += 1
 		hist[f"{key}:{r['status']}"] += 1
@@ -258,7 +274,8 @@ def search_programs(ctx: Ctx, pl: cxx.Pipeline) -> SearchResult:
 	# 2c. forced operator pairs: every well-typed parent x child pair of the precedence ladder (unary x binary, binary x binary x side,
 	# binary x unary) as its own tiny function, called on arguments on which the two groupings of the operator sequence differ
 	pcases = gen_prog.pair_cases(random.Random(rng.random()))
-	pprogs = gen_prog.pair_programs(rng, pcases, per_program=12)
+	pprogs = [] if past(dl) else gen_prog.pair_programs(rng, pcases, per_program=12)
+	hist['skipped-at-deadline:pairs'] += int(past(dl))
 	hist['pair:cases'] = len(pcases)
 	hist['pair:cases-with-distinguishing-arguments'] = sum(1 for c in pcases if c['distinguishing'])
 	bad_cases: list[dict[str, Any]] = []
@@ -291,7 +308,7 @@ def search_programs(ctx: Ctx, pl: cxx.Pipeline) -> SearchResult:
 			unexplained += 1
 			if unexplained > 3:
 				continue
-			q, qr = shrink(pl, p, r, rounds=ctx.scale(8, 20))
+			q, qr = shrink(pl, p, r, rounds=ctx.scale(8, 20), dl=dl)
 			# re-attribute the reduced program: shrinking may have exposed a known pattern in isolation
 			(_, _, culprits2, details2), = attribute(pl, [(q, qr)])
 			key = culprits2[0] if culprits2 else f"unexplained:{qr['status']}:{signature(q)}"
@@ -551,8 +568,9 @@ def emit_cases(tr: cxx.Transpiler, items: list[tuple[str, OT]]) -> list[tuple[di
 	body = ''.join(f'\tr{i} = {t.src()}\n' for i, (_, t) in enumerate(items[:-1]))
 	source = f"def f({PARAMS}) -> {rtys.get(items[-1][1].ty, 'int')}:\n{body}\treturn {items[-1][1].src()}\n"
 	try:
-		module = tr.app.module(source)
-		text = tr.py2cpp.transpile(module.entrypoint)
+		with cxx.budget(cxx.REAL_CALL_BUDGET, 'transpile of a batch of operator expressions'):
+			module = tr.app.module(source)
+			text = tr.py2cpp.transpile(module.entrypoint)
 		fn = [n for n in module.entrypoint.statements if type(n).__name__ == 'Function'][0]
 		stmts = [s for s in fn.statements if type(s).__name__ in ('MoveAssign', 'Return')]
 		lines = [ln.strip() for ln in text.split('\n')]
@@ -569,14 +587,16 @@ def emit_cases(tr: cxx.Transpiler, items: list[tuple[str, OT]]) -> list[tuple[di
 		desc = {'pair': name, 'expr': t.src()}
 		try:
 			real_text = ret[:-1] if ret.endswith(';') else f'<statement line without ;: {ret}>'
-			enc = RealNodes(tr).enc(st.return_value if type(st).__name__ == 'Return' else st.value)
+			with cxx.budget(cxx.REAL_CALL_BUDGET, 'serialising the operator nodes'):
+				enc = RealNodes(tr).enc(st.return_value if type(st).__name__ == 'Return' else st.value)
+			real_toks = ' '.join(cpp_tokens(real_text))   # text the tokeniser does not know = a disagreement, not a crash
 		except Exception as e:  # noqa: BLE001
 			out.append((desc, ['emit\ta 0 -'], [f'real-code exception {common.exc_enum(e)}: {str(e)[:200]}']))
 			continue
 		core = not _has(t, lambda n: n.kind == 'tern' or (n.kind == 'bin' and n.op in ('in', 'not in'))) and 'fmod(' not in real_text
 		desc.update(enc=enc, text=real_text, core=core, noin=not _has(t, lambda n: n.kind == 'bin' and n.op in ('in', 'not in')))
 		ops = [f'emit\t{enc}', f'toks\t{enc}', f'wf\t{enc}', f'pytree\t{enc}']
-		real = ['ok ' + hx(real_text), 'ok ' + ' '.join(cpp_tokens(real_text)), 'true', ('ok ' + cpython_grouping(t.src())) if core else 'none']
+		real = ['ok ' + hx(real_text), 'ok ' + real_toks, 'true', ('ok ' + cpython_grouping(t.src())) if core else 'none']
 		out.append((desc, ops, real))
 	return out
 
@@ -631,16 +651,16 @@ def stream_cpptable(ctx: Ctx, emit_cases_done: list[tuple[dict[str, Any], list[s
 		src = os.path.join(work, f'g{n}.cpp')
 		with open(src, 'w', encoding='utf-8') as f:
 			f.write('\n'.join(lines) + '\n')
-		p = subprocess.run(['g++', '-std=c++20', '-O0', '-w', src, '-o', src[:-4]], capture_output=True, text=True, timeout=600)
-		if p.returncode != 0:
-			return [f'g++ rejects the emitted operator text: {p.stderr[-300:]}'.replace('\n', ' ')] * len(chunk)
-		outl = subprocess.run([src[:-4]], capture_output=True, text=True, timeout=60).stdout.split('\n')
+		rc, _, err = cxx.run_cmd(['g++', '-std=c++20', '-O0', '-w', src, '-o', src[:-4]], 300)
+		if rc != 0:
+			return [f'g++ rejects the emitted operator text: {err[-300:]}'.replace('\n', ' ')] * len(chunk)
+		outl = cxx.run_cmd([src[:-4]], 60)[1].split('\n')
 		res, k = [], 0
 		for fz in fused:
 			if fz:
 				res.append('none')
 			else:
-				res.append('ok ' + outl[k])
+				res.append('ok ' + outl[k] if k < len(outl) else 'no output line from the grouping program')
 				k += 1
 		return res
 
@@ -727,17 +747,23 @@ def stream_sem(ctx: Ctx, emit_cases_done: list[tuple[dict[str, Any], list[str], 
 	path = os.path.join(work, 'sem.cpp')
 	with open(path, 'w', encoding='utf-8') as f:
 		f.write('\n'.join(src).replace('-2147483648', '(-2147483647 - 1)') + '\n')
-	p = subprocess.run(['g++', '-std=c++20', '-O0', '-w', '-fsanitize=undefined', '-fno-sanitize-recover=undefined', path, '-o', path[:-4]], capture_output=True, text=True, timeout=900)
-	rejected = p.returncode != 0
+	rc, _, gxx_err = cxx.run_cmd(['g++', '-std=c++20', '-O0', '-w', '-fsanitize=undefined', '-fno-sanitize-recover=undefined', path, '-o', path[:-4]], 600)
+	rejected = rc != 0
 
-	def run_one(k: int) -> str:
+	run_dl = deadline(ctx, 120, 600)
+
+	def run_one(k: int) -> str | None:
 		if rejected:
-			return 'g++ rejects the unit of emitted operator texts: ' + p.stderr[-300:].replace('\n', ' ').replace('\t', ' ')
-		r = subprocess.run([path[:-4], str(k)], capture_output=True, text=True, timeout=20)
-		return f'ok {r.stdout.strip()}' if r.returncode == 0 and r.stdout.strip() else 'ub'
+			return 'g++ rejects the unit of emitted operator texts: ' + gxx_err[-300:].replace('\n', ' ').replace('\t', ' ')
+		if past(run_dl):
+			return None   # skipped at the stream's wall deadline (counted)
+		rc1, out1, _ = cxx.run_cmd([path[:-4], str(k)], 20)
+		return f'ok {out1.strip()}' if rc1 == 0 and out1.strip() else 'ub'
 
 	with ThreadPoolExecutor(16) as ex:
 		cpp_real = dict(zip(core_ix, ex.map(run_one, core_ix)))
+	run_skipped = sum(1 for v in cpp_real.values() if v is None)
+	cpp_real = {k: v for k, v in cpp_real.items() if v is not None}
 	cpp_real.update({k: 'noparse' for k in fused_ix})
 	cpp_real.update({k: 'ub' for k in ub_ix})
 	cases = []
@@ -755,6 +781,7 @@ def stream_sem(ctx: Ctx, emit_cases_done: list[tuple[dict[str, Any], list[str], 
 	st.histogram['cpp-undefined-skipped'] = len(ub_ix)
 	st.histogram['cpp-fused-sign'] = len(fused_ix)
 	st.histogram['py-tagmismatch'] = len(tag_ix)
+	st.histogram['cpp-run-skipped-at-deadline'] = run_skipped
 	st.histogram['py-inexact-float-skipped'] = sum(1 for r in py_real if r is None)
 	st.note = ('int/bool/float operator expressions incl. ternary of stream emit evaluated on random environments: pyEval vs CPython (instrumented = the subset checks), '
 		'cEvalX(parseX (emit n)) vs g++ -std=c++20 -fsanitize=undefined running the real emitted text (floats as double on both sides)')
@@ -854,6 +881,14 @@ class StmtGen:
 		r = self.rng
 		pre = '\t' * ind
 		k = r.random()
+		if k < 0.12:
+			# augmented assignment: the target must be visible (and assignable here)
+			cands = [n for n in self.visible() if n not in self.fixed and not re.fullmatch(r'[ik][0-9]+', n)]
+			if cands:
+				op = r.choice(['+', '+', '-', '*', '%', '&', '|', '^', '<<', '>>'])
+				rhs = str(r.randint(0, 3)) if op in ('<<', '>>') and r.random() < 0.8 else self.int_expr(r.randint(0, 2))
+				self.shape[f'aug:{op}='] += 1
+				return [f'{pre}{r.choice(cands)} {op}= {rhs}']
 		if depth <= 0 or k < 0.5:
 			e = self.int_expr(r.randint(0, 3))
 			v = self.target()
@@ -931,6 +966,9 @@ def stmt_encode(tr: cxx.Transpiler, source: str) -> tuple[str, list[str], dict[i
 			return f'A {rn.ids.setdefault(name, len(rn.ids) + 1)} {hx(name)} {hx(ty)} {rn.enc(x.value)}'
 		if kind == 'Return':
 			return f'R {rn.enc(x.return_value)}'
+		if kind == 'AugAssign':
+			name = x.receiver.tokens
+			return f'U {rn.ids.setdefault(name, len(rn.ids) + 1)} {hx(name)} {x.operator.tokens[:-1]} {rn.enc(x.value)}'
 		if kind == 'While':
 			return f'W {rn.enc(x.condition)} {enc_block(x.statements)}'
 		if kind == 'For':
@@ -972,12 +1010,18 @@ def stream_stmt(ctx: Ctx) -> Stream:
 		progs.append(g.program())
 		shape.update(g.shape)
 	pre: list[dict[str, Any]] = []
-	for source in progs:
+	dl = deadline(ctx, 120, 600)
+	skipped_dl = 0
+	for n_src, source in enumerate(progs):
+		if past(dl):
+			skipped_dl = len(progs) - n_src
+			break
 		small = rng.random() < 0.7
 		args = [rng.randint(0, 9) if small else rng.choice([0, 1, -1, 7, -8, 31, 33, 1000, -65536, 2 ** 30, -(2 ** 31), 2 ** 31 - 1]) for _ in range(3)]
 		d: dict[str, Any] = {'source': source, 'args': args}
 		try:
-			enc, real_lines, texts, _ = stmt_encode(tr, source)
+			with cxx.budget(cxx.REAL_CALL_BUDGET, 'transpile + serialisation of a core program'):
+				enc, real_lines, texts, _ = stmt_encode(tr, source)
 			d.update(enc=enc, lines=real_lines)
 			lits = ' '.join(f'{i}:i{t}' for i, t in texts.items() if re.fullmatch(r'[0-9]+', t))
 			d['run'] = f"{' '.join(f'{i + 1}={v}' for i, v in enumerate(args))}\t{lits}\t{fuel}\t{enc}"
@@ -1025,13 +1069,17 @@ def stream_stmt(ctx: Ctx) -> Stream:
 	path = os.path.join(work, 'stmt.cpp')
 	with open(path, 'w', encoding='utf-8') as f:
 		f.write('\n'.join(src).replace('-2147483648', '(-2147483647 - 1)') + '\n')
-	p = subprocess.run(['g++', '-std=c++20', '-O0', '-w', '-fsanitize=undefined', '-fno-sanitize-recover=undefined', path, '-o', path[:-4]], capture_output=True, text=True, timeout=900)
+	rc, _, gxx_err = cxx.run_cmd(['g++', '-std=c++20', '-O0', '-w', '-fsanitize=undefined', '-fno-sanitize-recover=undefined', path, '-o', path[:-4]], 600)
 
-	def run_one(k: int) -> str:
-		if p.returncode != 0:
-			return 'g++ rejects the unit of emitted functions: ' + p.stderr[-300:].replace('\n', ' ').replace('\t', ' ')
-		r = subprocess.run([path[:-4], str(k)], capture_output=True, text=True, timeout=20)
-		return f'cpp=ret {r.stdout.strip()}' if r.returncode == 0 and r.stdout.strip() else 'cpp=ub'
+	run_dl = deadline(ctx, 90, 480)
+
+	def run_one(k: int) -> str | None:
+		if rc != 0:
+			return 'g++ rejects the unit of emitted functions: ' + gxx_err[-300:].replace('\n', ' ').replace('\t', ' ')
+		if past(run_dl):
+			return None
+		rc1, out1, _ = cxx.run_cmd([path[:-4], str(k)], 20)
+		return f'cpp=ret {out1.strip()}' if rc1 == 0 and out1.strip() else 'cpp=ub'
 
 	with ThreadPoolExecutor(16) as ex:
 		cpp_real = dict(zip([k for k, _ in gxx], ex.map(run_one, [k for k, _ in gxx])))
@@ -1052,12 +1100,15 @@ def stream_stmt(ctx: Ctx) -> Stream:
 			real.append(f"scope=true py={d['py']}")
 		cases.append((desc, ops, real))
 	for k, d in gxx:
-		cases.append(({'source': d['source'], 'args': d['args'], 'emitted': d['lines']}, [f"stmtcpp\t{d['run']}"], [cpp_real[k]]))
+		if cpp_real[k] is not None:
+			cases.append(({'source': d['source'], 'args': d['args'], 'emitted': d['lines']}, [f"stmtcpp\t{d['run']}"], [cpp_real[k]]))
 	st = common.correspond('stmt', cases, 'emit', classify=lambda d: 'cpp-run' if 'emitted' in d else ('py:' + d.get('model_py', 'exception').split('py=')[-1][:3]))
 	st.histogram.update({f'gen:{k}': v for k, v in shape.items()})
 	st.histogram['py-outside-subset-skipped'] = skipped_out
+	st.histogram['skipped-at-deadline'] = skipped_dl
+	st.histogram['cpp-run-skipped-at-deadline'] = sum(1 for v in cpp_real.values() if v is None)
 	st.histogram['cpp-run'] = len(gxx)
-	st.note = ('generated core programs (assign / return / if-elif-else / bounded while / for over range(1-3 arguments) over int/bool operator expressions; reads visible in the C++ block structure; '
+	st.note = ('generated core programs (assign / augmented assign / return / if-elif-else / bounded while / for over range(1-3 arguments) over int/bool operator expressions; reads visible in the C++ block structure; '
 		'targets: visible, fresh, re-declared after a closed block, parameters) through the real App/Py2Cpp: the statement tree tranp built is serialised (declared type '
 		'from Reflections.type_of/to_accessible_name) and the model must reproduce the emitted body lines exactly (stmtemit), CPython\'s result (stmtpy, scopeOK = true) '
 		'and g++ -fsanitize=undefined running the real emitted function (stmtcpp)')
@@ -1073,11 +1124,17 @@ def stream_emit(ctx: Ctx) -> Stream:
 	for i in range(ctx.scale(300, 2000)):
 		items.append(('random', ot_gen(rng, rng.choice([T_INT, T_INT, T_BOOL, T_BOOL, T_FLOAT]), 1 + i % depth, mixed=i % 4 == 3)))
 	cases = []
+	dl = deadline(ctx, 150, 900)
+	skipped = 0
 	for i in range(0, len(items), 40):
+		if past(dl):
+			skipped = len(items) - i
+			break
 		cases.extend(emit_cases(tr, items[i:i + 40]))
 	st = common.correspond('emit', cases, 'emit', classify=lambda d: 'forced-pair' if d['pair'] != 'random' else 'random')
 	st.raw_cases = cases  # type: ignore[attr-defined]
 	st.histogram['forced_pairs'] = len(forced)
+	st.histogram['skipped-at-deadline'] = skipped
 	st.histogram['forced_pairs_bare'] = sum(1 for n, _ in forced if not n.endswith('(grouped)'))
 	st.note = ('`def f(a, b, c: int, p, q: bool, x, y: float, xs: list[int], d: dict[int, int]) -> T: return <expr>` through the real App/Py2Cpp; '
 		'the operator nodes tranp built are serialised (types from Reflections.type_of/to_domain_name, leaf text from the leaf handlers) and the model must '
@@ -1104,10 +1161,13 @@ STATEMENTS = {
 	'toyOps_law': 'non-vacuity of the float hypotheses (an interpretation satisfying ModLaw) + an example through agree_full',
 	'fmod_left_type_regression': 'the repaired fmod:left-type (6063966, Ty.acc: the accumulated left type stays floating point): x % a % b with float x is emitted fmod(fmod(x, a), b), is inside agree_full, and the tag check of pyEval never fires on it for a float x and ints a, b',
 	'stmt_decl': 'the model of VarsCollector (one pass, `_merged`: same or enclosing scope) marks as declarations exactly the assignments whose name is not declared in an open C++ block at that point (proved equal to the scoped reading annotV)',
-	'stmt_agree': 'statements core (v = e, return e, if/elif/else, while, for v in range(begin, stop, step) over the operator core, 32-bit ints/bools): under the static condition scopeOK — every read is visible in the C++ block structure; for a for loop: fresh loop variable, the body assigns neither it nor anything stop/step read, stop may follow `v < ` unparenthesised, positive step — if the Python run (one function-level store, range evaluated once, loop variable rebound per iteration) is InSubset and returns r, the C++ reading of the emitted statements (declaration at the first assignment per scope chain, frames pushed/popped at braces and at the for statement, stop and step re-evaluated per iteration, emitted expression tokens parsed by cppTable) returns r with the same fuel',
+	'stmt_agree': 'statements core (v = e, v op= e for + - * % & | ^ << >>, return e, if/elif/else, while, for v in range(begin, stop, step) over the operator core, 32-bit ints/bools): under the static condition scopeOK — every read and every augmented-assignment target is visible in the C++ block structure; for a for loop: fresh loop variable, the body assigns neither it nor anything stop/step read, `v < stop` an operator node of the core in which stop needs no parentheses, positive step — if the Python run (one function-level store, range evaluated once, loop variable rebound per iteration) is InSubset and returns r, the C++ reading of the emitted statements (declaration at the first assignment per scope chain, frames pushed/popped at braces and at the for statement, the PASTED loop test `v < stop` and the step re-evaluated per iteration, every emitted token sequence parsed by cppTable) returns r with the same fuel',
 	'stmt_scope_counterexample': 'scopeOK is not vacuous: `if a > 0: v = 1 else: v = 2; return v` is valid Python (returns 1) but the statements the collector logic yields read an undeclared v (the real emitter rejects: finding reject:block-scoped-name)',
 	'range_reevaluated_counterexample': 'the known finding range:args-reevaluated as a fact about the emitted form: `for i in range(0, n, 1): if n < 5: n = n + 1; t = t + 1` — Python iterates twice, the emitted `for (auto i = 0; i < n; i += 1)` five times; scopeOK fails exactly on the clause "the body assigns nothing stop reads"',
 	'range_loopvar_counterexamples': 'the two loop-variable clauses of scopeOK are necessary on the emitted form: a loop variable that is an already declared name is shadowed by `auto i` (python 2, c++ 5; finding range:loopvar-shadowed); a body that assigns the loop variable skips iterations (python 10, c++ 4; finding range:loopvar-assigned)',
+	'for_test_reparses': 'the loop test flow/for/range.j2 pastes (`{{ symbol }} < {{ size }}`, read from the translated template) is, for every stop that is_regrouped_operand(stop, <) would not parenthesise, exactly the token text of the operator node `v < stop`; by `group` C++ parses it into the comparison with the whole stop (discharges the former tightArg assumption)',
+	'aug_ops_in_grammar': 'the operators the model gives `v op= e` (+ - * % & | ^ << >>) are terminals of aug_assign_op translated from data/grammar.lark (the remaining @= /= **= //= are outside the int core)',
+	'for_test_flat_counterexample': 'necessity: for stop `a & b` the pasted test is `i < a & b`, not the node text `i < (a & b)`, and C++ parses it as (i < a) & b (known finding flat:range-arg as a fact about the pasted text)',
 	'paren_decision_uses_own_operand': 'in the fold over a chain the k-th right element is parenthesised iff is_regrouped_operand(that element, the operator in front of it), the first operand against the first operator: the pairing of operands with operators is part of the model (a shifted pairing changes the emitted text the emit stream compares)',
 }
 
@@ -1140,7 +1200,7 @@ def run(ctx: Ctx) -> int:
 				'statement level: which assignment declares (stmt_decl) and agreement of assign / return / if-elif-else / while / for-over-range programs over the operator core on ints/bools under the static condition scopeOK (stmt_agree), each clause of which is proved necessary on the emitted form (stmt_scope_counterexample, range_reevaluated_counterexample, range_loopvar_counterexamples)',
 			'correspondence_only': 'Model.Emit = real Py2Cpp on operator nodes (stream emit: exact text, tokens, wf, CPython grouping); cppTable and the wrapper grammar = g++\'s grammar (stream cpptable; by value in stream sem); '
 				'pyEval / cEvalX = CPython / g++ on ints, bools, floats (stream sem); Model.EmitStmt = real Py2Cpp body lines, CPython and g++ on generated core programs (stream stmt)',
-			'search_only': 'for loops over lists/dicts/enumerate, break/continue, augmented assignment, calls between functions, functions/closures/default args, classes, enums, containers, comprehensions, strings, casts, exceptions, augmented/destructuring assignment, float and bool variables in statements, '
+			'search_only': 'for loops over lists/dicts/enumerate, break/continue, calls between functions, functions/closures/default args, classes, enums, containers, comprehensions, strings, casts, exceptions, augmented/destructuring assignment, float and bool variables in statements, '
 				'acceptance by g++ -std=c++20, never-rejected: generated programs vs CPython',
 			'false_on_current_tree': 'the grouping sentence for comparison chains (group_chain_counterexample; known finding chain-compare); '
 				'never-rejected for names first assigned in a nested block and read after it (stmt_scope_counterexample; finding reject:block-scoped-name); '
@@ -1151,8 +1211,7 @@ def run(ctx: Ctx) -> int:
 			'the domain name of each chain element and the declared type of each assignment are the ones Reflections.type_of / to_domain_name / to_accessible_name gave (type inference is C03\'s subject)',
 			'`in` / `not in` are grouped (call form = a postfix primary) but their C++ value needs containers: Err.unsupported in cEvalX, search only',
 			'floats are abstract in sem_full (no IEEE claim; both languages read over the same F; tranp maps float to C++ float: the search restricts floats to values exactly representable in binary32, stream sem uses double on both sides)',
-			'statements core: variables hold ints; the statement templates (assign/move_assign*.j2, statement/return.j2, flow/if/*.j2, flow/while.j2, flow/for/range.j2) are TRANSLATED on every run (gen_cpp_templates: whole-file skeleton check, head/tail lines as pieces) and interpreted by emitLines; not covered: the is_initializer / is_static / return-self / `std::is_same_v` constexpr branches; loops carry fuel (no claim about non-termination)',
-			'in the C++ reading of a for loop `stop` is evaluated as an expression of its own: that the pasted `v < stop` parses that way is assumed for stops that need no parentheses there (tightArg: atom, group, unary, or a chain tighter than comparison; the other case is the known finding flat:range-arg) and checked by stream stmt (g++ runs the real text)',
+			'statements core: variables hold ints; the statement templates (assign/move_assign*.j2, assign/aug_assign.j2, statement/return.j2, flow/if/*.j2, flow/while.j2, flow/for/range.j2) are TRANSLATED on every run (gen_cpp_templates: whole-file skeleton check, head/tail lines as pieces) and interpreted by emitLines; not covered: the is_initializer / is_static / return-self / `std::is_same_v` constexpr branches; loops carry fuel (no claim about non-termination)',
 		],
 		trusted=['cppTable + the wrapper grammar (conditional-expression, postfix call/member): ISO C++20 expression grammar transcribed (validated against g++ by streams cpptable and sem)',
 			'denotePy / denoteCpp, pyEval / cEvalX, pyExec / cExec: transcriptions of the two language definitions for int/bool/float operators and the statements core (validated against CPython and g++ -fsanitize=undefined by streams sem and stmt)',
